@@ -18,8 +18,7 @@ import TfelVerif.C02.GenN2
 
 namespace TfelVerif.C02.Props
 open TfelVerif TfelVerif.Mandel TfelVerif.C02
-set_option linter.unusedVariables false
-set_option linter.unusedSectionVars false
+set_option linter.all false
 set_option maxRecDepth 100000
 set_option maxHeartbeats 1600000
 
